@@ -672,6 +672,33 @@ class Machine:
             except Exception:
                 return UNKNOWN
             return list(arr) if isinstance(arr, list) else UNKNOWN
+        if "<impl str>::" in c and isinstance(a0, str):
+            WS = " \t\n\r\x0b\x0c"
+            if end == "trim":
+                return a0.strip(WS)
+            if end == "trim_start":
+                return a0.lstrip(WS)
+            if end == "trim_end":
+                return a0.rstrip(WS)
+            if end in ("trim_end_matches", "trim_start_matches", "trim_matches") and len(a) > 1:
+                pat = chr(a[1]) if isinstance(a[1], int) and not isinstance(a[1], bool) else a[1]
+                if isinstance(pat, str) and pat:
+                    t_ = a0
+                    if end in ("trim_start_matches", "trim_matches"):
+                        while t_.startswith(pat):
+                            t_ = t_[len(pat):]
+                    if end in ("trim_end_matches", "trim_matches"):
+                        while t_.endswith(pat):
+                            t_ = t_[:-len(pat)]
+                    return t_
+                return UNKNOWN
+            if end in ("starts_with", "ends_with", "contains") and len(a) > 1:
+                pat = chr(a[1]) if isinstance(a[1], int) and not isinstance(a[1], bool) else a[1]
+                if isinstance(pat, str):
+                    return {"starts_with": a0.startswith(pat), "ends_with": a0.endswith(pat), "contains": pat in a0}[end]
+                return UNKNOWN
+            if end in ("to_lowercase", "to_uppercase", "to_ascii_lowercase", "to_ascii_uppercase"):
+                return a0.lower() if "lower" in end else a0.upper()
         if m("std::hint::must_use", "std::convert::identity", "std::hint::black_box"):
             return a0
         if m("std::mem::drop", "std::ops::Drop>::drop"):
